@@ -265,18 +265,23 @@ func (i *Instance) Schema() schema.GraphInstance {
 }
 
 func (i *Instance) EncodeToAppSchema(appSchema *schema.App, encoder *jbtf.Encoder) {
-	nodeInstances := make(map[string]schema.AppNodeInstance)
-	for node := range i.nodeIDs {
-		id, ok := i.nodeIDs[node]
-		if !ok {
-			panic(fmt.Errorf("node %v has not had an ID generated for it", node))
-		}
-
-		if _, ok := nodeInstances[id]; ok {
+	// Binary payloads are appended to the encoder's buffers in the order the
+	// nodes are encoded, so that order has to be the same on every save: map
+	// iteration order is not.
+	nodesByID := make(map[string]nodes.Node, len(i.nodeIDs))
+	ids := make([]string, 0, len(i.nodeIDs))
+	for node, id := range i.nodeIDs {
+		if _, ok := nodesByID[id]; ok {
 			panic(fmt.Errorf("we've arrived to a invalid state. two nodes refer to the same ID. There's a bug somewhere"))
 		}
+		nodesByID[id] = node
+		ids = append(ids, id)
+	}
+	sort.Strings(ids)
 
-		nodeInstances[id] = i.buildNodeGraphInstanceSchema(node, encoder)
+	nodeInstances := make(map[string]schema.AppNodeInstance)
+	for _, id := range ids {
+		nodeInstances[id] = i.buildNodeGraphInstanceSchema(nodesByID[id], encoder)
 	}
 
 	if appSchema.Producers == nil {
